@@ -1027,8 +1027,16 @@ def run_arith(case, c):
     for op, fn in (('+', operator.pos), ('-', operator.neg), ('abs', abs)):
         check_op(c, 'unop', op + ':' + okind(ma), {'a': describe(ma), 'op': op}, lambda: R.unop(op, ma), lambda: fn(a),
                  [a], tol=TOL if (op == 'abs' and tc == 'z') else 0.0, fresh=True)
-    # zero-containing matrices for / % ** edge cases
     n = shape[0] * shape[1]
+    if n and tc == 'i':
+        # 'i' entries are C longs: values beyond 32 bits go through the unary operators untruncated
+        big = [2 ** 31, -(2 ** 31) - 1, 2 ** 32 + 1, -(2 ** 62), 2 ** 31 - 1, -(2 ** 32), 2 ** 40 + 3, -5, 2 ** 62]
+        mbig = R.Dense('i', shape, big[:n])
+        ab = to_impl(mbig)
+        for op, fn in (('+', operator.pos), ('-', operator.neg), ('abs', abs)):
+            check_op(c, 'unop', op + ':bigint:' + okind(mbig), {'a': describe(mbig), 'op': op}, lambda: R.unop(op, mbig),
+                     lambda: fn(ab), [ab], tol=0.0, fresh=True)
+    # zero-containing matrices for / % ** edge cases
     if n:
         mz = R.Dense(tc, shape, [R.conv(v, tc) for v in ([0, 1, -2, 0, 3, -1, 2, 0, 1][:n])])
         for x in NUMS:
